@@ -235,51 +235,73 @@ def run(ctx):
     if fn is None:
         raise AnalysisError("Subroutine.instantiate not found")
     ctx.fn("Subroutine.instantiate")
-    params = A.param_names(fn)
-    outer = [st for st in fn.body if isinstance(st, ast.For)]
-    ok_outer = len(outer) == 1 and (A.is_self_attr(outer[0].iter, "instructions") or A.is_self_attr(outer[0].iter, "_instructions")) and \
-        not any(isinstance(n, (ast.Break, ast.Continue, ast.Return)) for n in ast.walk(outer[0]))
-    ctx.check("C06.I", "instantiate:every-instruction", ok_outer, "instantiate does not visit every instruction (early exit or filtered iteration)", sub.loc(fn))
-    if ok_outer:
-        lp = outer[0]
-        iv = lp.target.id
-        inner = [st for st in lp.body if isinstance(st, ast.For)]
-        ok_inner = len(inner) == 1 and A.norm(inner[0].iter) == f"{iv}.operands"
-        ctx.check("C06.I", "instantiate:every-operand", ok_inner, "instantiate does not visit every operand of each instruction", sub.loc(lp))
-        if ok_inner:
-            il = inner[0]
-            ov = il.target.id
-            # the inner loop body is executed abstractly for a Template operand and for an ordinary one: exactly one value is
-            # appended per operand, the template's argument resp. the operand itself, to the same list
-            ARG = G.Sym("argument value")
-            results = {}
-            try:
-                for kind in ("Template", "Register"):
-                    opv = G.Sym(kind)
-                    got = []
+    # instantiate, executed by the checker's interpreter on a subroutine of modelled instructions: every instruction is rebuilt by
+    # its own from_operands, in order, from its own operands with each Template replaced by the argument of that name and everything
+    # else kept; the list and the application id are stored; a template without arguments is refused
+    from .. import circuit as C
+    tcls0 = repo.get_class("netqasm.lang.operand", "Template")
 
-                    def on_call(c, env_, got=got):
-                        if isinstance(c.func, ast.Attribute) and c.func.attr == "append" and len(c.args) == 1:
-                            try:
-                                got.append((A.norm(c.func.value), G.peval(c.args[0], env_)))
-                            except Unknown:
-                                got.append((A.norm(c.func.value), "?"))
+    class MInstr:
+        _nqsa_model = True
 
-                    env = {ov: opv, f"{params[2]}[{ov}.name]": ARG, params[2]: G.Sym("dict")}
-                    G.run_block(il.body, env, on_call)
-                    results[kind] = (got, opv)
-                (gt, _), (gr, opr) = results["Template"], results["Register"]
-                ok_sub = len(gt) == 1 and len(gr) == 1 and gt[0][1] is ARG and gr[0][1] is opr and gt[0][0] == gr[0][0]
-            except Unknown:
-                ok_sub = False
-            ctx.check("C06.I", "instantiate:template-replaced-by-its-argument-others-kept", ok_sub,
-                      "instantiate does not append arguments[op.name] for Template operands and the operand itself otherwise, in order", sub.loc(il))
-        rebuilt = [x for x in A.calls_in(lp) if A.call_name(x) == "from_operands"]
-        ok_rb = len(rebuilt) == 1 and A.norm(rebuilt[0].func) == f"{iv}.from_operands"
-        ctx.check("C06.I", "instantiate:rebuilt-by-own-class", ok_rb, "instructions are not rebuilt with instr.from_operands(ops) (class would not be preserved)", sub.loc(lp))
-    assigns = {A.norm(st.targets[0]): A.norm(st.value) for st in fn.body if isinstance(st, ast.Assign)}
-    ctx.check("C06.I", "instantiate:stores-instructions-and-app-id", assigns.get("self.instructions", assigns.get("self._instructions")) is not None and assigns.get("self._app_id", assigns.get("self.app_id")) == params[1],
-              f"instantiate assigns {assigns}; expected the rebuilt instruction list and app_id", sub.loc(fn))
+        def __init__(self, tag, operands):
+            self.tag, self.operands = tag, operands
+
+        def from_operands(self, ops):
+            return ("rebuilt", self.tag, list(ops))
+
+    def T_(name):
+        return C.Obj(tcls0, {"name": name})
+
+    def run_inst(instrs, arguments, with_args=True):
+        o = C.object_from_init(repo, sub, {"_instructions": list(instrs), "_app_id": None, "_arguments": []}, kind="self")
+        kw = {"app_id": 5}
+        if with_args:
+            kw["arguments"] = arguments
+        try:
+            C.Interp(repo, ctx.ev, C.Scenario(), sub).call_function(sub.module, fn, [], kw, self_obj=o)
+        except C.EvalRaise as ex_:
+            return None, ex_.exc_name
+        return o, None
+
+    r0, r1 = C.RegSym("r0"), C.RegSym("r1")
+    prog = [MInstr("i0", [r0, T_("a"), 7]), MInstr("i1", []), MInstr("i2", [T_("b"), T_("a")]), MInstr("i3", [r1, 0, r0, 1, T_("a"), T_("b")])]  # up to six operands (RegRegImm4)
+    want = [("rebuilt", "i0", [r0, 41, 7]), ("rebuilt", "i1", []), ("rebuilt", "i2", [0, 41]), ("rebuilt", "i3", [r1, 0, r0, 1, 41, 0])]
+    why = {}
+    try:
+        o, raised = run_inst(prog, {"a": 41, "b": 0, "unused": 9})
+        got = o.fields.get("_instructions") if o is not None else None
+        if raised is not None or not isinstance(got, list):
+            why["every-instruction"] = f"instantiate raises {raised}" if raised else f"the instruction list becomes {got!r}"
+        else:
+            if [g_[1] if isinstance(g_, tuple) and len(g_) == 3 else None for g_ in got] != ["i0", "i1", "i2", "i3"]:
+                why["every-instruction"] = f"the rebuilt list is {got!r}: not one rebuilt instruction per source instruction, in order"
+                if not all(isinstance(g_, tuple) and g_ and g_[0] == "rebuilt" for g_ in got):
+                    why["rebuilt-by-own-class"] = f"the stored list holds {got!r}: not what each instruction's own from_operands returns"
+            else:
+                for g_, w_ in zip(got, want):
+                    if len(g_[2]) != len(w_[2]):
+                        why.setdefault("every-operand", f"{g_[1]} is rebuilt from {g_[2]!r}, its source has {len(w_[2])} operands")
+                    elif any(not (x is y or (isinstance(y, int) and not isinstance(x, (C.Obj, C.RegSym)) and x == y)) for x, y in zip(g_[2], w_[2])):
+                        why.setdefault("template-replaced-by-its-argument-others-kept", f"{g_[1]} is rebuilt from {g_[2]!r}, expected {w_[2]!r} (a: 41, b: 0)")
+            if o.fields.get("_app_id") != 5:
+                why["stores-instructions-and-app-id"] = f"the application id is {o.fields.get('_app_id')!r} after instantiate(app_id=5)"
+        o2, raised2 = run_inst([MInstr("j0", [r0, 3]), MInstr("j1", [r1])], None, with_args=False)
+        if raised2 is not None or o2.fields.get("_instructions") != [("rebuilt", "j0", [r0, 3]), ("rebuilt", "j1", [r1])] or o2.fields.get("_app_id") != 5:
+            why.setdefault("stores-instructions-and-app-id", f"a subroutine without templates, instantiated without arguments: {raised2 or o2.fields.get('_instructions')!r}")
+        o3, raised3 = run_inst([MInstr("k0", [T_("a")])], None, with_args=False)
+        if raised3 is None:
+            why.setdefault("template-replaced-by-its-argument-others-kept", f"a template without arguments is not refused: the instruction is rebuilt as {o3.fields.get('_instructions')!r}")
+    except AnalysisError as ex_:
+        ctx.error("C06.I", f"Subroutine.instantiate cannot be evaluated: {ex_}")
+        why = None
+    if why is not None:
+        texts = {"every-instruction": "instantiate does not visit every instruction (early exit or filtered iteration)", "every-operand": "instantiate does not visit every operand of each instruction",
+                 "template-replaced-by-its-argument-others-kept": "instantiate does not pass arguments[op.name] for Template operands and the operand itself otherwise, in order",
+                 "rebuilt-by-own-class": "instructions are not rebuilt with instr.from_operands(ops) (class would not be preserved)",
+                 "stores-instructions-and-app-id": "instantiate does not store the rebuilt instruction list and app_id"}
+        for key, text in texts.items():
+            ctx.check("C06.I", f"instantiate:{key}", key not in why, f"{text}: {why.get(key)}", sub.loc(fn))
     # arguments discovered = all Template operands
     init = sub.methods.get("__init__")
     ok = init is not None and any(isinstance(n, ast.Call) and dotted(n.func) == "isinstance" and A.norm(n.args[1]) == "Template" for n in ast.walk(init))
